@@ -1,3 +1,5 @@
+//go:build !realfs
+
 // Package pdir checks C20: the real LogDirReader loop (initial files, tailing,
 // rotation, truncation, back-off) runs in a testing/synctest bubble over an
 // in-memory file system; the harness applies one file-system change at a time,
